@@ -50,6 +50,9 @@ class Prop(SeqProp):
         for v in VARIANTS[:2]:
             cs.append(Case(["fork 0", "seek 1 0", "seek 0 8", "read 1", "read 0", "seek 1 1", "seek 0 5", "read 0", "read 1"],
                            {"variant": v, "iter_ops": [1, 5]}, "child iterates first"))
+        for v in VARIANTS:
+            cs.append(Case(["fork 0", "seek 1 3", "seek 0 8", "read 0", "read 1", "seek 0 2", "seek 1 6", "read 1", "read 0"],
+                           {"variant": v, "noops": {"1": [[1, 0]]}}, "child calls open() on the inherited object first"))
         return cs
 
     def gen(self, rng, n, tier):
@@ -61,11 +64,18 @@ class Prop(SeqProp):
             last = {}     # proc -> last line read (for `next`)
             itpos = {}    # proc -> position of its own `for line in f` iteration (line files only)
             iter_ops = []
+            noops = {}
             for _ in range(rng.randint(4, 30)):
                 r = rng.random()
                 idle = [p for p in range(nprocs) if p not in paused]
+                if idle and rng.random() < 0.12:
+                    # open() on an opened object (documented as an empty operation), len(), .closed — by any process,
+                    # also as a forked child's very first call on the inherited object
+                    noops.setdefault(str(len(ops)), []).append([rng.choice(idle), rng.choice([0, 0, 1, 2])])
                 if r < 0.15 and nprocs < 6 and idle:
                     ops.append(f"fork {rng.choice(idle)}"); nprocs += 1
+                    if rng.random() < 0.3:
+                        noops.setdefault(str(len(ops)), []).append([nprocs - 1, 0])
                 elif r < 0.25 and idle and variant != "MapAccessFile" and any(itpos.get(p, 0) < NLINES for p in idle):
                     # a step of the process's own iteration (possibly its very first access after the fork)
                     p = rng.choice([q for q in idle if itpos.get(q, 0) < NLINES])
@@ -85,7 +95,7 @@ class Prop(SeqProp):
                         ops.append(f"read {p}"); last[p] += 1
             for p in sorted(paused):
                 ops.append(f"read {p}")
-            yield Case(ops, {"variant": variant, "iter_ops": iter_ops})
+            yield Case(ops, {"variant": variant, "iter_ops": iter_ops, "noops": noops})
 
     def run_impl(self, case):
         if self.scratch is None:
@@ -100,9 +110,15 @@ class Prop(SeqProp):
         paused = set()
         try:
             tree.start()
+            noops = case.meta.get("noops", {})
             for op in case.ops:
                 w = op.split()
                 try:
+                    for k, kind in noops.get(str(len(out)), []):
+                        if k not in paused:
+                            r = tree.noop(k, kind)
+                            if r[0] != "ok":
+                                raise RuntimeError(f"open()/len()/closed on the opened object failed in process {k}: {r}")
                     if w[0] == "fork":
                         tree.fork(int(w[1])); out.append("ok")
                     elif w[0] == "seek":
@@ -129,6 +145,8 @@ class Prop(SeqProp):
                         out.append("bad-op")
                 except TimeoutError as e:
                     out.append(f"timeout {e}")
+                except RuntimeError as e:
+                    out.append(f"err {e}")
         finally:
             tree.stop()
         while len(out) < len(case.ops):
